@@ -33,15 +33,19 @@ structure Line where
   cap : Nat
   cell : Spec.C14.Cell
 
+/-- a tag / chosencases token of the input line: `_` = the empty tag, `~` = a space -/
+def untok (s : String) : String :=
+  if s == "_" then "" else s.map fun c => if c == '~' then ' ' else c
+
 def parseLine (kv : List (String × String)) : Option Line := do
   let kind ← parseFmt (getS kv "fmt")
   let limit ← getN? kv "limit"
   let passes ← getN? kv "passes"
   let cap ← getN? kv "cap"
   let ts := getS kv "tags"
-  let tags := if ts == "-" then [] else splitList ts
+  let tags := if ts == "-" then [] else (splitList ts).map untok
   let cs := getS kv "cases"
-  let cases := if cs == "-" then [] else splitList cs
+  let cases := if cs == "-" then [] else (splitList cs).map untok
   pure { kind, tags, cases, b := ⟨limit, passes⟩, cap, cell := { tags, cases, limit, passes, cap } }
 
 /-- what the harness would observe on one side of the model (`cap` = the acquisition count at which it cancels) -/
@@ -85,6 +89,11 @@ def handle : Handler := fun input impl =>
   | none => ("-", "fail:driver:unparsable input")
   | some l =>
     let ikv := parseKV impl
+    -- the layout of the file (`junk`), the source (`src=uris`) and the construction route (`via=yaml`) are invisible
+    -- to the model: they must not change anything
+    if l.cap == 0 then ("-", "skip:no-cap") else
+    if l.tags.isEmpty && getS (parseKV input) "src" == "uris" then ("-", "skip:empty-uris-list-is-no-source") else
+    if !Spec.C14.noMatch l.cell && Spec.C14.inconclusive l.cell then ("-", "skip:cap-equals-count") else
     match parseSide ikv "s", parseSide ikv "p" with
     | some s, some p =>
       (modelObs l ikv, Spec.C14.judge l.cell { s, p, tagsOk := getS ikv "tagsok" == "1" })
